@@ -288,7 +288,8 @@ PHH_VARIANTS = ['FT', 'NT', 'NS', 'PO', 'FO/8', 'F7S', 'F7S/8', 'FR', 'N2L1D', '
 def check_C16(run: Run):
     rng = random.Random(run.seed * 31 + 16)
     q = run.tier == 'quick'
-    pol = dict(probe_level=0, probe_every=0.0, illegal=0.0, noop=0.0, runout=0.0, partial_show=0.0)
+    pol = dict(probe_level=0, probe_every=0.0, illegal=0.0, noop=0.06, runout=0.0, partial_show=0.0,
+               commentary=('a note', 'note #2 with a hash', "it's quoted", 'say "hi"', 'p1 cc', 'tabs\tand = signs'))
     ps = _pairs(run, rng, 260 if q else 3000, twins.phh_pair, dict(variants=PHH_VARIANTS, boards=(1,)), pol)
     for p in ps:
         run.count('partial_history' if p['A']['create']['post'] and not p['A'].get('finished') else 'terminal_history')
